@@ -126,6 +126,8 @@ def _run_stepwise(im, code: str, ast, mp, viol: T.List[Viol]) -> T.Tuple[str, T.
                 finally:
                     im.disarm()
             finally:
+                if not im.saw_live_alias and im.live_alias():
+                    im.saw_live_alias = True
                 if names is not None:
                     after = im.interp.variables
                     for k, v0 in before.items():
